@@ -62,11 +62,24 @@ def significant_tokens(tt):
 
 
 def dropped_tokens(r):
+    """identifier / literal tokens of the input that are not tokens of the parsed value or pattern.  A token counts as
+    present when it occurs as a token (text and position) of an expression, path, field name or literal of the tree, or
+    is the string literal a regex node was made from.  (The position alone is not enough: a field-operation chain records
+    the position of whatever token it started at.)"""
+    import re
     have = r.real_value + " " + r.real_tree
     missing = []
     for pos, text in significant_tokens(r.tt):
-        if ("@" + pos) not in have and (" " + pos) not in have:
-            missing.append("`%s` at %s" % (text, pos))
+        tokform = vlib.hx(text)[1:] + "@" + pos          # I<hex>@pos / L<hex>@pos
+        if ("x" + tokform) in have:
+            continue
+        if text[:1] in ('"', "r") and re.search(r"\(regex \d+ x[0-9a-f]* " + re.escape(pos), have):
+            continue
+        if text.isdigit() and ("(unnamed %d " % int(text)) in have:
+            continue        # a tuple index written as a field name: kept as a number, not as a token
+        if re.fullmatch(r"\d+\.\d+", text) and all(("(unnamed %d " % int(x)) in have for x in text.split(".")):
+            continue        # `.0.1` lexes as a float literal and becomes two tuple indices
+        missing.append("`%s` at %s" % (text, pos))
     return missing
 
 
